@@ -259,7 +259,10 @@ def merge(results):
         m["sigs"].update(r["sigs"])
         m["states"].update(r["states"])
         for k, v in r["counters"].items():
-            m["counters"][k] = m["counters"].get(k, 0) + v
+            if k.startswith("max:"):
+                m["counters"][k] = max(m["counters"].get(k, 0), v)
+            else:
+                m["counters"][k] = m["counters"].get(k, 0) + v
         for k, v in r["inconclusive"].items():
             m["inconclusive"][k] = m["inconclusive"].get(k, 0) + v
         if len(m["samples"]) < 6:
